@@ -71,3 +71,56 @@ def judge(sl, a):
         cthr = float(w[5])
         if cost_bad is None and rep[1] == "0" and (rep[4] == "1") != (fl(rep[3]) < cthr): cost_bad = "solution marked optimized=%s but its stored cost %r %s the threshold %r" % (rep[4], fl(rep[3]), "satisfies" if fl(rep[3]) < cthr else "does not satisfy", cthr)
     return dict(itree=itree, irep=irep, nodes=nodes, rep=rep, dup=dup, path_bad=path_bad, cost_bad=cost_bad)
+
+
+def gen_calls(rng, n):
+    """several solve() calls on one planner (harness/rrt_driver op RRTSN; model RrtStarFloat.star_float_calls)"""
+    slines = []; sterms = []
+    for i in range(n):
+        md = rng.choice([1.5, 3.0]); bias = rng.choice([0.0, 0.0625, 0.25]); thr = rng.choice([0.5, 1.0]); work = rng.choice([0, 0, 1]); rf = rng.choice([1.1, 1.1, 0.1])
+        cthr = rng.choice([0.0, 0.0, 12.0, 30.0]) if not work else rng.choice([0.0, 0.0, 8.0, 40.0])
+        walls = [(q10(rng.uniform(0, 10)), lo, lo + rng.choice([0.5, 2.0, 6.0])) for _ in range(rng.choice([0, 1, 1, 2])) for lo in [q10(rng.uniform(0, 8))]]
+        starts = [(q10(rng.uniform(0, 10)), q10(rng.uniform(0, 10))) for _ in range(rng.choice([1, 1, 2]))]
+        g = (q10(rng.uniform(0, 10)), q10(rng.uniform(0, 10)))
+        pts = list(starts); calls = []; total = 0
+        for _c in range(rng.choice([2, 2, 3, 4])):
+            iters = rng.choice([0, 1, 4, 10, 15]); total += iters
+            tape = [rng.randrange(256) / 256.0 for _ in range(iters + 2)]; samples = []
+            for _ in range(iters):
+                b0 = rng.choice(pts); p = (q10(b0[0] + rng.uniform(-md, md)), q10(b0[1] + rng.uniform(-md, md))) if rng.random() < 0.7 else (q10(rng.uniform(0, 10)), q10(rng.uniform(0, 10)))
+                samples.append(p); pts.append(p)
+            calls.append((iters, tape, samples))
+        krrt = rf * (2.0 ** 3 * math.e * (1.0 + 1.0 / 2.0)); ks = [0] + [int(math.ceil(krrt * math.log(float(cd)))) for cd in range(1, total + len(starts) + 3)]
+        slines.append("RRTSN %r %r %r %d %r %r W %d %s S %d %s G %r %r C %d %s" % (md, bias, thr, work, cthr, rf, len(walls), " ".join("%r %r %r" % w for w in walls), len(starts), " ".join("%r %r" % q for q in starts), g[0], g[1], len(calls),
+                      " ".join("%d T %d %s P %d %s" % (it, len(tp), " ".join("%r" % u for u in tp), len(sm), " ".join("%r %r" % q for q in sm)) for it, tp, sm in calls)))
+        sterms.append("star_float_calls %s %s %s %s %s [%s]%%nat [%s] [%s] (%s, %s) [%s]" % (cfl(md), cfl(bias), cfl(thr), "true" if work else "false", cfl(cthr), "; ".join(map(str, ks)),
+                      "; ".join("(%s, %s, %s)" % tuple(map(cfl, w)) for w in walls), "; ".join("(%s, %s)" % tuple(map(cfl, q)) for q in starts), cfl(g[0]), cfl(g[1]),
+                      "; ".join("(%d%%nat, [%s], [%s])" % (it, "; ".join(map(cfl, tp)), "; ".join("(%s, %s)" % tuple(map(cfl, q)) for q in sm)) for it, tp, sm in calls)))
+    return slines, sterms
+
+
+def judge_calls(sl, a):
+    """a: the driver's output for an RRTSN line.  Returns dict(itree, ireps, dup, path_bad, cost_bad, nreports)"""
+    parts = [x.strip() for x in a.split("|")]
+    nodes = [t.split() for t in parts[0].split(";")[1:] if t.strip()]
+    itree = [v for t in nodes for v in (int(t[0], 16), int(t[1], 16), fb(float(int(t[2]))), int(t[3], 16), int(t[4], 16))]
+    dup = len(set((t[0], t[1]) for t in nodes)) < len(nodes)
+    w = sl.split(); nw = int(w[8]); walls = [(float(w[9 + 3 * j]), float(w[10 + 3 * j]), float(w[11 + 3 * j])) for j in range(nw)]
+    o = 9 + 3 * nw; ns = int(w[o + 1]); starts = [(float(w[o + 2 + 2 * j]), float(w[o + 3 + 2 * j])) for j in range(ns)]
+    o = o + 2 + 2 * ns; goal = (float(w[o + 1]), float(w[o + 2])); thr = float(w[3]); work = w[4] == "1"
+    def mc(p_, q_): return (max((1.0 + 4.0 * q_[1]) - (1.0 + 4.0 * p_[1]), 0.0) + 0.05 * edist(p_, q_)) if work else edist(p_, q_)
+    ireps = []; path_bad = cost_bad = None; q = 1
+    while q < len(parts):
+        rep = parts[q].split()
+        if not rep: break
+        if rep[0] != "1": ireps.append([]); q += 2 if q + 1 < len(parts) and not parts[q + 1].strip() else 1; continue
+        pstates = [t for t in parts[q + 1].split(";") if t.strip()]
+        ireps.append([fb(float(int(rep[1]))), int(rep[2], 16), int(rep[3], 16), fb(float(int(rep[4])))] + [int(x, 16) for t in pstates for x in t.split()])
+        path = [(fl(t.split()[0]), fl(t.split()[1])) for t in pstates]; true_c = sum(mc(u, v) for u, v in zip(path, path[1:])); k = len(ireps)
+        if path_bad is None:
+            if not path or path[0] not in starts: path_bad = "the path reported by call %d does not begin at a start state" % k
+            elif any(touches_any(walls, u, v) for u, v in zip(path, path[1:])): path_bad = "the path reported by call %d contains a motion that touches a wall" % k
+            elif rep[1] == "0" and not (edist(path[-1], goal) < thr): path_bad = "the exact solution of call %d ends %r from the goal (threshold %r)" % (k, edist(path[-1], goal), thr)
+        if cost_bad is None and fl(rep[3]) < true_c - 1e-9: cost_bad = "call %d: stored cost %r is better than the cost %r of the reported path" % (k, fl(rep[3]), true_c)
+        q += 2
+    return dict(itree=itree, ireps=ireps, nodes=nodes, dup=dup, path_bad=path_bad, cost_bad=cost_bad)
